@@ -139,10 +139,12 @@ def reductions(ctx, tk):
         for x in walk(tm):
             if x.k == "bin" and x.a[0] == "*":
                 ops = (x.a[1], x.a[2])
-                lens = [o for o in ops if np_call(o, {"diff"}) and o.a[1] and (attr_chain(o.a[1][0]) or ("",))[-1] == "_events"]
+                lens = [o for o in ops if all(any(np_call(y, {"diff"}) and y.a[1] and (attr_chain(y.a[1][0]) or ("",))[-1] == "_events" for y in walk(a)) for a in alts(o))]
                 vals = [o for o in ops if (attr_chain(o) or ("",))[-1] == "_values"]
-                ok = bool(lens and vals)
+                ok = True if (lens and vals) else (False if vals and not any(any(np_call(y, {"diff"}) for y in walk(o)) for o in ops) else None)
         ctx.decide("C16.d", f, "sum weights every run value by its run length (diff of the boundaries)", ok, node=r.ast, engine="E5")
+    from ..rlrules import weighted_sum_dtype
+    weighted_sum_dtype(ctx, "C16.d", f)
     for name, npf in (("any", "any"), ("all", "all"), ("max", "max")):
         g = ctx.func(RL + name)
         ga = ctx.fa(g)
